@@ -39,9 +39,11 @@ def check(ctx):
     ctx.rule("C20-C", "selector lists are unions: one rule set per selector of the list, none skipped; a rule set applies "
              "exactly under rule.selector.matches(element)")
     ctx.rule("C20-D", ":nth-child counts element siblings matching its selector up to the element itself")
+    ctx.rule("C20-E", "the parent links the combinators walk are kept by the (vendored) DOM builder: every TreeSink operation "
+             "that moves children to another node re-points their parent link, before the source list is emptied")
     ctx.facts.upvar_depth = 8  # captured selector payloads are compared in full
     try:
-        for rid, fn in (("C20-A", rule_a), ("C20-B", rule_b), ("C20-C", rule_c), ("C20-D", rule_d)):
+        for rid, fn in (("C20-A", rule_a), ("C20-B", rule_b), ("C20-C", rule_c), ("C20-D", rule_d), ("C20-E", rule_e)):
             ctx.guard(rid, fn)
     finally:
         ctx.facts.upvar_depth = 2
@@ -346,3 +348,36 @@ def rule_d(ctx):
     pe = [(x, b.term(x)) for x in sorted(region) if b.term(x)["k"] == "call" and callee_method(b.term(x)) == "ptr_eq"]
     ctx.check(len(pe) >= 2 and all("arg2" in norm(b.canon(t["args"][1])) or "arg2" in norm(b.canon(t["args"][0])) for _x, t in pe), "C20-D",
               "NthChild:walk-stops-at-the-element", b.term(tb)["span"], b.id, "%d ptr_eq tests" % len(pe))
+
+
+def rule_e(ctx):
+    """get_parent() is what `>` / descendant / :nth-child rely on.  In src/markup5ever_rcdom.rs (vendored into this
+    crate) reparent_children is the one operation that moves a whole child list: the loop that re-points each
+    child's parent link must run over the children while they are still in the source list."""
+    F = ctx.facts
+    b = F.one("<markup5ever_rcdom::RcDom as html5ever::tree_builder::TreeSink>::reparent_children")
+    sets = b.calls(lambda cd, t: callee_method(t) in ("replace", "set") and "Cell" in (cd or ""))
+    takes = b.calls(lambda cd, t: ends(cd, "std::mem::take"))
+    nexts = b.calls(lambda cd, t: callee_method(t) == "next")
+    okc = len(sets) == 1 and len(takes) == 1 and len(nexts) == 1
+    if ctx.check(okc, "C20-E", "reparent_children:shape", b.span, b.id, "parent updates %d, take %d, loops %d" % (len(sets), len(takes), len(nexts))):
+        sbb, st = sets[0]
+        at = b.atoms(st["args"][1])
+        ctx.check(("arg", 3) in at and any(a[0] == "call" and str(a[1]).endswith("downgrade") for a in at), "C20-E",
+                  "reparent_children:parent:=new_parent", st["span"], b.id, "")
+        # the parent update is inside the loop; the loop does not run after the list was taken
+        nbb = nexts[0][0]
+        inloop = sbb in b.reach_from(nbb) and nbb in b.reach_from(sbb)
+        after_take = nbb in b.reach_from(takes[0][0])
+        ctx.check(inloop and not after_take, "C20-E", "reparent_children:links-updated-before-the-list-is-emptied", takes[0][1]["span"], b.id,
+                  "the children are taken out of the source node before (or while) their parent links are updated: the loop would "
+                  "see an empty list and the moved children keep pointing at the old parent")
+    # append / append_before_sibling set the parent of the inserted child
+    for fn in ("markup5ever_rcdom::append", "markup5ever_rcdom::append_to_existing_text"):
+        pass
+    ap = F.find("markup5ever_rcdom::append")
+    if ap:
+        a = ap[0]
+        okp = bool(a.calls(lambda cd, t: callee_method(t) in ("replace", "set") and "Cell" in (cd or ""))) and \
+            bool(a.calls(lambda cd, t: callee_method(t) == "push"))
+        ctx.check(okp, "C20-E", "append:pushes-child-and-sets-its-parent", a.span, a.id, "")
